@@ -16,6 +16,8 @@
 -/
 import NiftyVerif.Lemmas.Hmc
 import NiftyVerif.Lemmas.HmcSlots
+import NiftyVerif.Lemmas.HmcVolume
+import Mathlib.MeasureTheory.Measure.Lebesgue.Basic
 
 namespace NiftyVerif.C32
 open NiftyVerif.Hmc
@@ -96,6 +98,40 @@ theorem leapfrog_linear_is_matrix {F : Type} [Field F] (H Minv : Matrix n n F) (
   congr 1 <;> ext i <;> simp [sub_eq_add_neg, add_comm]
 
 end jac
+
+/-! ## volume preservation as a statement about measures -/
+section volume
+open MeasureTheory
+variable {E : Type} [AddCommGroup E] [Module ℝ E] [MeasurableSpace E] [MeasurableAdd₂ E] [MeasurableNeg E]
+  [MeasurableConstSMul ℝ E] (μ : Measure E) [SFinite μ] [μ.IsAddRightInvariant]
+
+/-- **leapfrog_volume_preserving**: the leapfrog step (read on the product `E × E`, see `leapfrog_eq_prod`) preserves the
+    product of any translation-invariant measure with itself — Lebesgue measure on phase space — for EVERY measurable force
+    field `∇U`, every measurable `∇K`, every step size.  No differentiability, no Jacobians. -/
+theorem leapfrog_volume_preserving (gradU gradK : E → E) (hU : Measurable gradU) (hK : Measurable gradK) (ε : ℝ) :
+    MeasurePreserving (fun z : E × E =>
+        let w := leapfrog (K := ℝ) gradU gradK ε ⟨z.1, z.2⟩
+        (w.q, w.p)) (μ.prod μ) (μ.prod μ) := by
+  have h := leapfrogP_measurePreserving μ gradU gradK hU hK ε
+  have e : (fun z : E × E =>
+        let w := leapfrog (K := ℝ) gradU gradK ε ⟨z.1, z.2⟩
+        (w.q, w.p)) = kickP gradU (ε / 2) ∘ driftP gradK ε ∘ kickP gradU (ε / 2) := by
+    funext z
+    exact leapfrog_eq_prod gradU gradK ε z.1 z.2
+  rw [e]; exact h
+
+/-- the HMC proposal `flip ∘ Lⁿ` preserves the measure as well when it is also invariant under `p ↦ −p` -/
+theorem flip_volume_preserving [μ.IsNegInvariant] :
+    MeasurePreserving (fun z : E × E => (z.1, -z.2)) (μ.prod μ) (μ.prod μ) :=
+  flipP_measurePreserving μ
+
+/-- non-vacuity: Lebesgue measure on ℝ and the quartic force `q ↦ q³` meet all hypotheses -/
+example : MeasurePreserving (fun z : ℝ × ℝ =>
+        let w := leapfrog (K := ℝ) (fun q : ℝ => q ^ 3) (fun p => p) (1 / 2) ⟨z.1, z.2⟩
+        (w.q, w.p)) ((volume : Measure ℝ).prod volume) ((volume : Measure ℝ).prod volume) :=
+  leapfrog_volume_preserving volume _ _ (measurable_id.pow_const 3) measurable_id _
+
+end volume
 
 /-! ## Metropolis acceptance -/
 section metropolis
